@@ -358,7 +358,7 @@ def replay_file(prop, path, env_extra=None, binary="replay"):
         os.makedirs(os.path.dirname(case["module_file"]), exist_ok=True)
         with open(case["module_file"], "w") as f:
             f.write(case["module_src"] + "\n")
-    v = replay([case], work, env_extra=env_extra or obj.get("env"), jobs=1, name="replay1", binary=binary)[0]
+    v = replay([case], work, env_extra=env_extra or obj.get("env") or case.get("env"), jobs=1, name="replay1", binary=binary)[0]
     print(json.dumps(v, indent=1))
     if not v["pass"]:
         print(f"VIOLATION property={prop} replay={path}")
